@@ -367,10 +367,15 @@ func (r *Run) heapWF(h, sort string, elemT types.Type, frontier string) {
 	}
 	fst := &State{frontier: frontier}
 	switch {
-	case strings.HasPrefix(sort, "(Array Int (Array Int "):
+	case strings.HasPrefix(sort, "(Array Int (Array "):
+		// element heaps (index sort Int) and map value heaps (index sort = the key sort)
+		isort := "Int"
+		if rest := strings.TrimPrefix(sort, "(Array Int (Array "); !strings.HasPrefix(rest, "Int ") {
+			isort = firstSort(rest)
+		}
 		inv := r.typeInvRefOnly(app("select", app("select", h, "x"), "i"), elemT, fst)
 		if inv != "true" {
-			r.assumeBG(fmt.Sprintf("(forall ((x Int) (i Int)) (! (=> (and (<= 0 (refbase x)) (< (refbase x) %s)) %s) :pattern ((select (select %s x) i))))", frontier, inv, h))
+			r.assumeBG(fmt.Sprintf("(forall ((x Int) (i %s)) (! (=> (and (<= 0 (refbase x)) (< (refbase x) %s)) %s) :pattern ((select (select %s x) i))))", isort, frontier, inv, h))
 		}
 	case strings.HasPrefix(sort, "(Array Int "):
 		inv := r.typeInvRefOnly(app("select", h, "x"), elemT, fst)
@@ -387,8 +392,21 @@ func (r *Run) heapWF(h, sort string, elemT types.Type, frontier string) {
 // typeInvRefOnly keeps only the cheap parts of the type invariant that matter for framing and
 // arithmetic: reference bounds, slice well-formedness and integer ranges.
 func (r *Run) typeInvRefOnly(x string, t types.Type, st *State) string {
-	switch t.Underlying().(type) {
-	case *types.Struct, *types.Array:
+	switch u := t.Underlying().(type) {
+	case *types.Struct:
+		// a struct value (map element, by-value field): the references it carries
+		si := r.eng.sorts.structOf(t)
+		var cs []string
+		for i := 0; i < u.NumFields(); i++ {
+			if c := r.typeInvRefOnly(app(si.fields[i], x), u.Field(i).Type(), st); c != "true" {
+				cs = append(cs, c)
+			}
+		}
+		if len(cs) == 0 {
+			return "true"
+		}
+		return and(cs...)
+	case *types.Array:
 		return "true"
 	case *types.Basic:
 		// integer ranges are asserted on the individual values that are read (loads, contract reads):
@@ -566,6 +584,11 @@ func (r *Run) store(st *State, a *Addr, v TV) {
 	case aElem:
 		name, h := r.elemHeap(st, a.typ)
 		r.heapSet(st, name, app("store", h, a.base, app("store", app("select", h, a.base), a.idx, v.S)))
+		if _, isConst := numeral(a.idx); isConst || strings.HasPrefix(a.idx, "(+ (s_off") {
+			// a tautology that names the element just written: gives quantifier instantiation (E-matching) a read term
+			// for elements of literal slices, which are otherwise only ever stored
+			r.emit(fmt.Sprintf("(assert (= (select (select %s %s) %s) %s)) ;bg", r.heapGet(st, name), a.base, a.idx, v.S))
+		}
 	case aCell:
 		r.storeAt(st, a.base, a.typ, v)
 	case aGlobal:
@@ -816,4 +839,26 @@ func (r *Run) merge2(a, b *State) *State {
 	out.defers = ds
 	out.reach = r.define("reach", SBool, or(a.reach, b.reach))
 	return out
+}
+
+// firstSort returns the first sort expression at the start of s (an identifier or a parenthesised term).
+func firstSort(s string) string {
+	if !strings.HasPrefix(s, "(") {
+		if i := strings.IndexAny(s, " )"); i >= 0 {
+			return s[:i]
+		}
+		return s
+	}
+	depth := 0
+	for i, c := range s {
+		if c == '(' {
+			depth++
+		} else if c == ')' {
+			depth--
+			if depth == 0 {
+				return s[:i+1]
+			}
+		}
+	}
+	return s
 }
